@@ -26,6 +26,7 @@ func checkC13(p *Prog, res *Result, tier string) {
 	res.rule("C13-R8", "on the scan path the error of the engine iterator, of a partition worker and of the retry loop is returned (as is or wrapped) unless found nil or classified: a failed partition fails the read", 6)
 	res.rule("C13-R10", "a batch handed to the stream is not written by the receiver afterwards (C05-R9): a refilled batch loses and repeats keys depending on how many fit a partition", 1)
 	res.rule("C13-R7", "engine partitions are clamped into the requested interval (C11-R7)", 3)
+	res.rule("C13-R11", "the less function of every sort.Slice indexes the slice that is being sorted (the positions it is given are positions of that slice as it is permuted): the partition borders and the compaction borders are ordered by a comparison of their own elements", 2)
 	res.rule("C13-R9", "a partition border of the engine is advertised to clients (who stream every [border, next border) as a scan of its own) only as the first start / the last end, when it is not a version key, or re-encoded as the index key of the key it splits", 2)
 
 	recvIface := p.namedType("pkg/backend/scanner", "resultReceiver")
@@ -677,6 +678,7 @@ func checkC13(p *Prog, res *Result, tier string) {
 	checkBorderContiguity(p, r, res, sp)
 	// ---- R9 ----
 	checkAdvertisedBorders(p, r, res, "C13-R9")
+	checkSortLessIndexesSorted(p, res, "C13-R11")
 	// ---- R10: a streamed batch is not refilled after it was sent (C05-R9) ----
 	{
 		sub5 := newResult("C05")
